@@ -3,11 +3,29 @@
 import json, os
 HERE = os.path.dirname(os.path.dirname(os.path.abspath(__file__)))
 
+TB = "Trusted: Lean 4.33.0 kernel; axioms propext/Classical.choice/Quot.sound only (audited by #print axioms on every run); the hand-written model is tied to /repo by the correspondence run (sampled) and by tools/extract.py (syntactic) — see DESIGN.md §8."
+
 CHECKS = {
+ "C06": dict(
+   text="Lean 4 refinement theorems, for every hash function, default leaf, depth and operation history over {set, delete, append, write_range, batch, reset}: the models of FullMerkleTree (flat heap array, update_nodes), OptimalMerkleTree (sparse map + per-level defaults, the update_hashes loop) and the persistent tree (pmtree set/recalculate_from, fill_nodes + batch_recalculate, adapter) are related to the ideal hash tree by an invariant preserved by every operation, all observables (root, leaves, subtree roots, high-water mark) coincide, acceptance coincides and a rejected operation changes nothing; hence all backends agree. Models tied to /repo by running generated histories (positions inside / at / beyond capacity, up to 2^64-1) on the real trees and on model and spec, comparing every observable after every operation.",
+   note=TB + " The persistent tree's key-value store is a finite map (sled is a contract); Cantor-pairing key injectivity is assumed for the trees in use.",
+   design="§5 C06", technique="Lean 4 proof (invariant + refinement to an ideal tree, induction over histories) + differential correspondence"),
+ "C07": dict(
+   text="Lean 4 theorems: in every reachable state of each backend model and for every position, the proof has one sibling per level, decodes to the position (LSB first), recomputes the root from the stored leaf and is accepted by the tree's own check; the three backends produce identical paths; binding and direction-bit flips are proved as collision extraction for the hash (any second opening yields an explicit collision). Correspondence: proofs of every position after generated histories plus every single-sibling / direction-bit / leaf alteration on the real trees against model and spec.",
+   note=TB + " Binding is relative to collision resistance of Poseidon (stated as a reduction).",
+   design="§5 C07", technique="Lean 4 proof (refinement + collision-extraction lemma) + differential correspondence"),
+ "C08": dict(
+   text="Lean 4 theorems: for every reachable state and every (start, leaves, removal list) the in-memory backends' override_range refines the ideal batch (reset the removed positions, then write; rejected requests change nothing) and never panics; batch initialisation = fresh tree + batch. The persistent backend's removal paths are an open finding (pinned by an existing test): proved only for requests without removals, the defect region is matched by call site + shape, replayed and reported as KNOWN-FINDING; everything else is compared with model and spec on shape-directed batches.",
+   note=TB + " Open finding C08-pm-batch in known_findings.txt.",
+   design="§5 C08", technique="Lean 4 proof (refinement) + differential correspondence with known-finding matcher"),
  "C09": dict(
    text="Lean 4 theorems for every input/parameter record: Poseidon::hash = the paper's three-phase permutation; ring-buffer Grain LFSR = shift-register LFSR (constants and MDS for every (t,RF,RP,skip)); the ROUND_PARAMS table regenerated from hashers.rs on each run = circomlib's rows for t=2..9; hash_to_field = LE(Keccak-256) mod p, total. Model tied to /repo by a correspondence run (typed, byte-level, FFI, 8 threads).",
    note="Keccak-256 (tiny-keccak) and arkworks field arithmetic are modelled from their specifications and tied by correspondence only; Lean kernel; axioms propext/Classical.choice/Quot.sound.",
    design="§5 C09", technique="Lean 4 proof (simulation + loop splitting) + generated-table theorem + differential correspondence"),
+ "C15": dict(
+   text="Lean 4 theorems: for every history, each backend model's list of empty positions equals the ideal tree's, which is characterised as the ascending positions below the high-water mark never written or last removed. The persistent backend's flag cache is not persisted (open finding C15-pm-reopen-flags, reported as KNOWN-FINDING); close/reopen histories are still compared with the model exactly. Correspondence: generated histories over every mutator with the empty list observed after every operation.",
+   note=TB + " Open findings C15-pm-reopen-flags and (shared) C08-pm-batch.",
+   design="§5 C15", technique="Lean 4 proof (refinement, history characterisation) + differential correspondence"),
 }
 
 NOT_APPLICABLE = []
